@@ -87,18 +87,21 @@ type piece struct {
 }
 
 func (p *piece) complete() bool {
+	verifPoint("complete")
 	p.RLock()
 	defer p.RUnlock()
 	return p.status == _complete
 }
 
 func (p *piece) dirty() bool {
+	verifPoint("dirty")
 	p.RLock()
 	defer p.RUnlock()
 	return p.status == _dirty
 }
 
 func (p *piece) tryMarkDirty() (dirty, complete bool) {
+	verifPoint("try_mark_dirty")
 	p.Lock()
 	defer p.Unlock()
 
@@ -116,12 +119,14 @@ func (p *piece) tryMarkDirty() (dirty, complete bool) {
 }
 
 func (p *piece) markEmpty() {
+	verifPoint("mark_empty")
 	p.Lock()
 	defer p.Unlock()
 	p.status = _empty
 }
 
 func (p *piece) markComplete() {
+	verifPoint("mark_complete")
 	p.Lock()
 	defer p.Unlock()
 	p.status = _complete
